@@ -340,8 +340,14 @@ void run_op(C& c, const OpSpec& o) {
 
 // quiescent observation: every occupied slot of every linked table (read raw, not through begin()/size())
 void dump_final() {
-  std::string s = "[";
-  bool first = true;
+  // vsched's event buffer is small: the slots are reported in chunks ("fslots"), then one "final" line
+  std::string s;
+  int n = 0;
+  auto flush = [&] {
+    if (n > 0) vsched::eventf(false, "\"k\":\"fslots\",\"slots\":[%s]", s.c_str());
+    s.clear();
+    n = 0;
+  };
   for (size_t o = 0; o < g_tabs.size(); o++) {
     const TabInfo& t = g_tabs[o];
     if (t.values == nullptr) continue;
@@ -350,13 +356,13 @@ void dump_final() {
       if (c[i] >= 0) {
         const Elem* e = (const Elem*)(t.values + t.stride * i);
         char b[96];
-        snprintf(b, sizeof b, "%s[%zu,%zu,%d,%d,%d]", first ? "" : ",", o, i, e->key, (int)c[i], e->valid() ? 1 : 0);
+        snprintf(b, sizeof b, "%s[%zu,%zu,%d,%d,%d]", n ? "," : "", o, i, e->key, (int)c[i], e->valid() ? 1 : 0);
         s += b;
-        first = false;
+        if (++n == 24) flush();
       }
     }
   }
-  s += "]";
+  flush();
   // mirrored tail: byte B + j must equal byte j for j < 15
   int mirror_bad = 0;
   for (size_t o = 0; o < g_tabs.size(); o++) {
@@ -366,7 +372,7 @@ void dump_final() {
     for (size_t j = 0; j + 1 < 16; j++)
       if (c[t.buckets + j] != c[j]) mirror_bad++;
   }
-  vsched::eventf(false, "\"k\":\"final\",\"ntab\":%zu,\"mirror_bad\":%d,\"slots\":%s", g_tabs.size(), mirror_bad, s.c_str());
+  vsched::eventf(false, "\"k\":\"final\",\"ntab\":%zu,\"mirror_bad\":%d", g_tabs.size(), mirror_bad);
 }
 
 template <typename C>
